@@ -276,7 +276,9 @@ class IndexedCache:
         :rtype: Iterable
         """
         if not from_index:
-            for v in self.flat_cache:
+            # a snapshot: entries may be added while a consumer is suspended here (a rule that creates instances of
+            # the class it ranges over); they are not part of this retrieval
+            for v in list(self.flat_cache):
                 yield {}, v
             return
 
